@@ -59,7 +59,7 @@ SRC_DEPS = {
     "C09": ["src/util.rs", "src/http_conn.rs"], "C10": ["src/util.rs", "src/http_conn.rs"],
     "C11": ["src/util.rs", "src/response.rs event_stream", "src/event.rs"],
     "C15": ["src/cookie.rs", "src/headers.rs"], "C16": ["src/time.rs"], "C18": ["src/log/logger.rs log()"],
-    "C17": ["src/log/tag_value.rs", "src/log/logger.rs write_jsonl"], "C19": ["src/log/log_file_writer.rs"],
+    "C17": ["src/log/tag_value.rs", "src/log/logger.rs write_jsonl"], "C19": ["src/log/log_file_writer.rs", "src/log/prefix_file_set.rs"],
     "C14": ["src/headers.rs"],
 }
 
